@@ -262,6 +262,18 @@ func TestBoundedMarkup(t *testing.T) {
 			continue
 		}
 		distinct[line] = true
+		if c%7 == 3 {
+			// history: a line that fails to parse on the same parser value must leave no trace (C14)
+			bad := []string{"Oops [wave", "stray [/nothing] closing marker", "[a p0=]x[/a]", "half \\[ [b"}[c%4]
+			func() {
+				defer func() {
+					if e := recover(); e != nil {
+						report("panic", fmt.Sprintf("line %q: %v", bad, e))
+					}
+				}()
+				p.ParseMarkup(bad)
+			}()
+		}
 		func() {
 			defer func() {
 				if e := recover(); e != nil {
